@@ -29,6 +29,8 @@ pub struct Prepared {
     pub cid_class: String,
     /// further request headers (name, value) that a client, a proxy or a browser may add
     pub extra: Vec<(String, String)>,
+    /// the client pauses this many milliseconds before it sends the last chunk of the body
+    pub pause_ms: u64,
 }
 
 /// request headers a client, proxy or browser may add; none of them is part of the protocol
@@ -64,6 +66,7 @@ pub fn run_request(web: WebServer, prep: &Prepared) -> std::thread::Result<RawRe
     let chunks = prep.chunks.clone();
     let (broken, http10) = (prep.broken, prep.http10);
     let extra = prep.extra.clone();
+    let pause_ms = prep.pause_ms;
     std::panic::catch_unwind(std::panic::AssertUnwindSafe(|| {
         actix_rt::System::new().block_on(async move {
             let app = test::init_service(App::new().configure(|c| web.config(c))).await;
@@ -91,14 +94,27 @@ pub fn run_request(web: WebServer, prep: &Prepared) -> std::thread::Result<RawRe
                 }
                 rq.set_payload(chunks.concat()).to_request()
             } else {
-                let (mut sender, pl) = actix_http::h1::Payload::create(true);
-                for c in &chunks {
-                    sender.feed_data(actix_web::web::Bytes::copy_from_slice(c));
-                }
-                if broken {
-                    sender.set_error(actix_web::error::PayloadError::Incomplete(None));
+                let (mut sender, pl) = actix_http::h1::Payload::create(pause_ms == 0);
+                if pause_ms > 0 && chunks.len() >= 2 {
+                    // a slow client: everything but the last chunk now, the rest after a pause
+                    for c in &chunks[..chunks.len() - 1] {
+                        sender.feed_data(actix_web::web::Bytes::copy_from_slice(c));
+                    }
+                    let last = chunks[chunks.len() - 1].clone();
+                    actix_rt::spawn(async move {
+                        actix_rt::time::sleep(std::time::Duration::from_millis(pause_ms)).await;
+                        sender.feed_data(actix_web::web::Bytes::copy_from_slice(&last));
+                        sender.feed_eof();
+                    });
                 } else {
-                    sender.feed_eof();
+                    for c in &chunks {
+                        sender.feed_data(actix_web::web::Bytes::copy_from_slice(c));
+                    }
+                    if broken {
+                        sender.set_error(actix_web::error::PayloadError::Incomplete(None));
+                    } else {
+                        sender.feed_eof();
+                    }
                 }
                 let req = rq.to_request();
                 let (req, _) = req.replace_payload(actix_http::Payload::from(pl));
@@ -270,6 +286,11 @@ impl HCtx {
         let (method_s, route, seg, cid, ctype, body) = (toks[0], toks[1], toks[2], toks[3], toks[4], toks[5]);
         let (method_s, http10) = match method_s.strip_suffix("/1.0") { Some(m) => (m, true), None => (method_s, false) };
         let (body, broken) = match body.strip_prefix("brk:") { Some(rest) => (format!("chunks:{rest}"), true), None => (body.to_string(), false) };
+        // slow:MS:a,b,...  the chunks of `chunks:a,b,...` with a pause of MS milliseconds before the last one
+        let (body, pause_ms) = match body.strip_prefix("slow:") {
+            Some(rest) => { let (ms, cs) = rest.split_once(':').unwrap(); (format!("chunks:{cs}"), ms.parse::<u64>().unwrap()) }
+            None => (body, 0),
+        };
         let body = body.as_str();
         // ---- path
         let (seg_class, seg_bytes): (String, Vec<u8>) = if seg == "-" {
@@ -395,6 +416,7 @@ impl HCtx {
             seg_class,
             cid_class,
             extra: toks.get(6).and_then(|t| t.strip_prefix("xh=")).map(extra_headers).unwrap_or_default(),
+            pause_ms,
         }
     }
 
